@@ -2179,13 +2179,8 @@ impl<'a> Eval<'a> {
                         if let Some((name, t)) = rest.split_once('=') {
                             self.hit_outcome("dec.T", t);
                             let mut ok = if strict { same_decision(&v, t) } else { accepted(t).is_none() || same_decision(&v, t) };
-                            // the typed containers (Vec, HashMap, tuples) do not count as nesting levels, only variants do: a
-                            // variant-like type below a typed container accepts up to (static depth) levels more than validate_raw
-                            let inner_variant = (name.contains("Variant") || name.contains("MS") || name.contains("MV")) && name != "Variant" && name != "MS" && name != "MV";
-                            if !ok && inner_variant && v == "err NestingTooDeep" && accepted(t).is_some() {
-                                self.out.hit("typed_container_levels_not_counted");
-                                ok = true;
-                            }
+                            // (typed containers used not to count their own nesting level - repaired in /repo by da613af;
+                            // a typed decoder accepting what validate refuses as too deep is a disagreement again)
                             if !ok {
                                 self.out.violation(&req0, &format!("the typed decoder {} and validate_marshalled disagree on the same bytes: validate {} / typed {}", name, v, t));
                             }
